@@ -44,3 +44,6 @@ for hs, tiers, to in [(8, ("quick", "thorough"), 240), (12, ("quick", "thorough"
              "non-zero and unpadded size in range, 1-4 Filter Flags with valid properties, zero padding, "
              "CRC32); decoded sizes, filter ids and options equal; nothing left allocated on error" % hs,
         bounds_q="all strings of header size %d" % hs))
+# payload-side pieces decided elsewhere that belong to "decode as specified"
+OBLIGATIONS += reuse("C15", r"delta_reinit|delta_roundtrip|delta_reference")    # delta decoder state does not leak between Blocks
+OBLIGATIONS += reuse("C04", r"dict_repeat_safety|dict_wrap_step|dict_put_get_step|lzma_decoder_reset")   # LZ dictionary primitives, state reset
